@@ -368,7 +368,8 @@ func c11SeqResponse(rng *Rng, head bool, maxBody int) ([]byte, bool) {
 		b = append(b, c11RespLines[rng.Intn(len(c11RespLines))]...)
 	}
 	if rng.Intn(10) == 0 {
-		b = append(b, "Connection: close\r\n"...)
+		// the option is case-insensitive (RFC 7230 6.1); the client side was repaired in /repo a8cd011
+		b = append(b, pick(rng, []string{"Connection: close\r\n", "Connection: close\r\n", "Connection: Close\r\n", "connection: CLOSE\r\n"})...)
 		closeAfter = closeAfter || rng.Bool()
 	}
 	var size int
